@@ -300,16 +300,20 @@ static void sanitize(char* s) { for (; *s; s++) if ((unsigned char)*s < 0x20 || 
 int main(int argc, char** argv)
 {
     double limit = 2.0;
-    for (int i = 1; i < argc; i++) if (!strcmp(argv[i], "--limit")) limit = atof(argv[++i]);
+    int maxhang = 8;
+    for (int i = 1; i < argc; i++) { if (!strcmp(argv[i], "--limit")) limit = atof(argv[++i]); else if (!strcmp(argv[i], "--maxhang")) maxhang = atoi(argv[++i]); }
     g_log = mmap(NULL, LOGSZ + 4096, PROT_READ | PROT_WRITE, MAP_SHARED | MAP_ANONYMOUS, -1, 0);
     g_loglen = (volatile uint32_t*)(g_log + LOGSZ);
     static char line[2000000];
+    int nhung = 0;
     while (fgets(line, sizeof line, stdin)) {
         char* nl = strchr(line, '\n'); if (nl) *nl = 0;
         char* id = line;
         char* args = strchr(id, '\t'); if (!args) continue; *args++ = 0;
         char* presets = strchr(args, '\t'); if (!presets) continue; *presets++ = 0;
         char* events = strchr(presets, '\t'); if (!events) continue; *events++ = 0;
+        /* after maxhang (8; 1 once the whole check has seen 64) scripts of this batch ran into the limit the verdict is settled: the rest is reported as not run */
+        if (nhung >= maxhang) { printf("%s\tnotrun\t\t\n", id); continue; }
         *g_loglen = 0; g_log[0] = 0;
         int outfd = memfd_create("out", 0), errfd = memfd_create("err", 0);
         fflush(stdout);
@@ -330,14 +334,17 @@ int main(int argc, char** argv)
             fflush(stdout);
             _exit(100 + (rc & 31));       /* main returned */
         }
-        int status = 0; double waited = 0; int hung = 0;
+        int status = 0; int hung = 0;
+        struct timespec t0; clock_gettime(CLOCK_MONOTONIC, &t0);
         for (;;) {
             pid_t r = waitpid(pid, &status, WNOHANG);
             if (r == pid) break;
             struct timespec ts = {0, 200000}; nanosleep(&ts, NULL);
-            waited += 0.0002;
-            if (waited > limit) { kill(pid, SIGKILL); waitpid(pid, &status, 0); hung = 1; break; }
+            struct timespec t1; clock_gettime(CLOCK_MONOTONIC, &t1);
+            /* wall-clock limit (a script that is only slow because the machine is busy is run again alone, with five times the limit) */
+            if ((double)(t1.tv_sec - t0.tv_sec) + 1e-9 * (double)(t1.tv_nsec - t0.tv_nsec) > limit) { kill(pid, SIGKILL); waitpid(pid, &status, 0); hung = 1; break; }
         }
+        if (hung) nhung++;
         char st[64];
         if (hung) snprintf(st, sizeof st, "hang");
         else if (WIFSIGNALED(status)) snprintf(st, sizeof st, "signal:%d", WTERMSIG(status));
